@@ -17,7 +17,12 @@ mkdir -p "$wt/$(dirname "$dest")"
 cp "$mut/$demo" "$wt/$dest"
 (cd "$wt" && eval "$@") > "$out/demo_clean.log" 2>&1; demo_clean=$?
 rm -f "$wt/$dest"
-(cd "$wt" && git apply "$mut/patch.diff") || { echo "patch does not apply"; exit 2; }
+if ! (cd "$wt" && git apply "$mut/patch.diff" 2>/dev/null); then
+  # the pinned tree has since received fix: commits; re-base the change onto the current tree
+  (cd "$wt" && patch -p1 --fuzz=3 --no-backup-if-mismatch < "$mut/patch.diff" > "$out/patch_fuzz.log" 2>&1) || { echo "patch does not apply (even with fuzz)"; git -C /repo worktree remove --force "$wt"; exit 2; }
+  (cd "$wt" && find . -name "*.orig" -delete; git diff) > "$out/rebased.diff"
+  echo "patch re-based onto current tree"
+fi
 ( (cd "$wt" && go build ./... && go test -vet=off -count=1 ./...) && (cd "$wt/cmd/participle" && go test -vet=off -count=1 ./...) ) > "$out/suite.log" 2>&1; suite=$?
 cp "$mut/$demo" "$wt/$dest"
 (cd "$wt" && eval "$@") > "$out/demo_mut.log" 2>&1; demo_mut=$?
@@ -34,7 +39,7 @@ git -C /repo worktree remove --force "$wt"
 echo "demo_clean=$demo_clean (want 0) suite=$suite (want 0) demo_mut=$demo_mut (want !=0)"
 d=/verif/seeded/$sid
 mkdir -p "$d"
-cp "$mut/patch.diff" "$d/patch.diff"; cp "$mut/$demo" "$d/$demo"; [ -f "$mut/NOTES.txt" ] && cp "$mut/NOTES.txt" "$d/NOTES.txt"
+if [ -s "$out/rebased.diff" ]; then cp "$out/rebased.diff" "$d/patch.diff"; cp "$mut/patch.diff" "$d/patch.orig-pin.diff"; else cp "$mut/patch.diff" "$d/patch.diff"; fi; cp "$mut/$demo" "$d/$demo"; [ -f "$mut/NOTES.txt" ] && cp "$mut/NOTES.txt" "$d/NOTES.txt"
 {
  echo "{"
  echo " \"seed_id\": \"$sid\", \"property\": \"$prop\","
